@@ -30,6 +30,9 @@ def configs(tier):
                 cfgs.append({"name": f"{kind}-T{T}-{via}", "kind": kind, "T": T, "W": 3 if q else 4, "LO": 2 if q else 3, "via": via})
     cfgs.append({"name": "split-T2-str", "kind": "split", "T": 2, "W": 2, "LO": 1, "via": "str"})
     for kind in ("split", "delta"):
+        cfgs.append({"name": f"{kind}-T2-motif-sizes[2, 4]", "kind": kind, "T": 2, "W": 3, "LO": 2, "via": "direct", "motif_sizes": [2, 4]})
+        cfgs.append({"name": f"{kind}-T2-motif-sizes[3, 2]", "kind": kind, "T": 2, "W": 2, "LO": 2, "via": "direct", "motif_sizes": [3, 2]})
+    for kind in ("split", "delta"):
         cfgs.append({"name": f"{kind}-T2-second-loader-same-params", "kind": kind, "T": 2, "W": 2, "LO": 2, "via": "direct", "twice": True})
         cfgs.append({"name": f"{kind}-T3-second-loader-same-params", "kind": kind, "T": 3, "W": 2, "LO": 1, "via": "direct", "twice": True})
     # degrees above 256 (identity vs equality of Python ints): concrete probabilities, two topologies
@@ -68,7 +71,9 @@ def path(ctx, cfg):
             ftab[k] = ctx.real(f"fp{k}", 0, lo_strict=True)
         return ftab[k]
 
-    params = {JN.FP: fp, JN.PROBS: list(probs), JN.MOTIF_SIZES: list(range(2, 2 + T)), JN.LOW_HIGH_DEGREE_BOUND: (lo, hi)}
+    # the i-th topology costs i+1 edges whatever the motif sizes are called; some configurations use sizes that are not 2,3,4,...
+    msz = list(cfg.get("motif_sizes") or range(2, 2 + T))
+    params = {JN.FP: fp, JN.PROBS: list(probs), JN.MOTIF_SIZES: msz, JN.LOW_HIGH_DEGREE_BOUND: (lo, hi)}
     target = None
     if kind == "delta":
         target = ctx.fork_int(ctx.int("target", lo - 1, hi + 1))
